@@ -1,4 +1,6 @@
 """C15 — skip_unknown drops exactly the statements that target unknown names."""
+import os
+
 from vf import pkgtree, probes, snap
 from vf.teq import canon
 
@@ -10,7 +12,13 @@ RULE = ('config texts mixing known and unknown targets (flat, block, scoped, mod
         'and again after the names are registered). Oracle: (metamorphic) parse(text, setting) == parse(reduced text, setting) where the reduced text '
         'deletes exactly the statements the rule says; unknown-not-listed -> error; every placeholder raises "No configurable matching" on use and '
         'at finalize; dynamic: first-use parse == repeat parse == reduced parse, and == skip_unknown=False parse when everything resolves. '
-        'distinct = (statement kinds, skip form, which unknowns listed, registration mode)')
+        'Every text is fed through one of five entry points (parse_config, parse_config_file, an include - possibly nested -, '
+        'parse_config_files_and_bindings, two successive parses onto the live configuration) and compared with the plain parse of the reduced text; '
+        'empty collections as skip_unknown (nothing may be skipped), wrong-module spellings of known names, from/as imports of missing modules, '
+        'blocks of unknown targets holding unknown references, %macro references to macros holding placeholders; placeholders are used through '
+        'c15f / c15cons under several scopes and through macros, the error must name an unknown selector that is reachable (at finalize: and a binding '
+        'holding it); dynamic registration: list/tuple/set with partial lists (unlisted -> error), placeholders checked in the store, on use and at '
+        'finalize. distinct = (statement kinds, skip form, which unknowns listed, registration mode, entry point)')
 TIERS = {
     'quick': {'workers': 8, 'cases': 1800, 'timeout': 600},
     'thorough': {'workers': 16, 'cases': 12000, 'timeout': 3000},
@@ -19,23 +27,42 @@ REQUIRED_BUCKETS = ['list:includes-known-name', 'mode:late-known-static', 'mode:
                     'stmt:scoped-unknown', 'stmt:module-qualified-unknown', 'stmt:known-with-unknown-ref', 'stmt:macro-with-unknown-ref', 'stmt:missing-import',
                     'ref:nested-depth2+', 'outcome:error-unlisted', 'outcome:skipped', 'outcome:all-known', 'placeholder:use-raises', 'placeholder:finalize-raises',
                     'dynamic:first-use', 'dynamic:repeat', 'dynamic:all-resolvable-equals-noskip', 'dynamic:name-not-imported', 'dynamic:attribute-missing',
-                    'dynamic:missing-import', 'list:partial']
+                    'dynamic:missing-import', 'list:partial',
+                    'entry:text', 'entry:file', 'entry:include', 'entry:include-nested', 'entry:fab', 'entry:two-parses', 'entry:files-on-disk', 'entry:files-in-memory', 'entry:other-than-text-error-unlisted',
+                    'entry:other-than-text-skipped', 'entry:second-parse-onto-live-placeholders', 'skip:empty-collection', 'stmt:wrong-module-spelling-target',
+                    'stmt:wrong-module-spelling-ref', 'stmt:missing-import-from', 'stmt:missing-import-as', 'stmt:unknown-block-with-unknown-ref',
+                    'stmt:block-under-nested-scope', 'stmt:macro-reference', 'placeholder:use-scoped', 'placeholder:use-through-macro',
+                    'placeholder:use-in-c15f', 'placeholder:error-names-selector', 'placeholder:finalize-names-binding', 'finalize:same-outcome-as-reduced',
+                    'dynamic:partial-list-error', 'dynamic:skip-tuple', 'dynamic:skip-set', 'dynamic:list-includes-known-name',
+                    'dynamic:placeholder-in-store', 'dynamic:placeholder-use-raises', 'dynamic:placeholder-finalize-raises', 'dynamic:known-reference-kept',
+                    'dynamic:entry-file', 'dynamic:entry-fab', 'late-known:finalize-passes']
 ORACLE_COUNTERS = ['oracle_evals', 'reduced_compared', 'placeholders_checked']
 _S = {}
 KNOWN = {'c15f': 'c15.m.c15f', 'c15.m.c15f': 'c15.m.c15f', 'm.c15g': 'c15.m.c15g', 'c15g': 'c15.m.c15g'}
-UNKNOWN_T = ['c15_unk1', 'other.c15_unk2', 'c15.m.c15_unk3']
-UNKNOWN_R = ['c15_unkref1', 'x.c15_unkref2']
+WRONG_T = ['wrong.c15f', 'c15.wrong.c15g']   # a known name under a module path it does not have: unknown
+WRONG_R = ['wrong.c15g']
+UNKNOWN_T = ['c15_unk1', 'other.c15_unk2', 'c15.m.c15_unk3'] + WRONG_T
+UNKNOWN_R = ['c15_unkref1', 'x.c15_unkref2'] + WRONG_R
+COLL = ('list', 'tuple', 'set')
+ENTRIES = ['text', 'text', 'file', 'include', 'fab', 'two-parses']
+USE_SCOPES = ['', 'sc', 'a/b', 'sc/inner']   # 'sc/inner' inherits what is bound under 'sc'
+FULL = {'c15f': 'c15.m.c15f', 'c15g': 'c15.m.c15g', 'c15cons': 'c15.m.c15cons'}
 MISSING_MODS = ['vf_missing_mod_a', 'os.vf_missing_sub', 'vf_c15_unimportable']   # the last exists, but raises a bare ImportError (a dependency of it is missing)
 
 
 def setup(ctx):
   for name in ('c15f', 'c15g'):
-    probes.build({'shape': 'fn', 'api': 'external', 'name': name, 'module': 'c15.m', 'pos': [], 'dflt': [['x', 0], ['y', 0], ['z', 0]], 'varargs': False,
+    _S[name] = probes.build({'shape': 'fn', 'api': 'external', 'name': name, 'module': 'c15.m', 'pos': [], 'dflt': [['x', 0], ['y', 0], ['z', 0]], 'varargs': False,
                   'kwonly': [], 'varkw': False})
   _S['cons'] = probes.build({'shape': 'fn', 'api': 'external', 'name': 'c15cons', 'module': 'c15.m', 'pos': [], 'dflt': [['v', None], ['w', None]],
                              'varargs': False, 'kwonly': [], 'varkw': False})
   _S['tree'] = pkgtree.Tree()
-  import os
+  _S['mem'] = {}
+  import gin
+  gin.config.register_file_reader(_mem_open, lambda path: path in _S['mem'])
+  # gin's package-resource reader is asked first and logs an error for every path it cannot map to a package: keep stderr readable
+  import logging
+  logging.getLogger().addFilter(lambda r: not (r.args and isinstance(r.args, tuple) and isinstance(r.args[0], str) and r.args[0].startswith(MEM_ROOT)))
   with open(os.path.join(_S['tree'].root, 'vf_c15_unimportable.py'), 'w') as fh:
     fh.write("raise ImportError('a dependency of this module is not installed')\n")
 
@@ -44,9 +71,11 @@ def finish(ctx):
   _S['tree'].cleanup()
 
 
-def gen_value(rng, depth, allow_unknown):
+def gen_value(rng, depth, allow_unknown, macros=()):
   r = rng.random()
   if depth <= 0 or r < 0.5:
+    if macros and rng.random() < 0.2:
+      return ['mref', rng.choice(macros)]   # %name of a macro the text defines
     k = rng.random()
     if k < 0.4:
       return ['lit', rng.choice([1, 'x', None, [1, 2], {'a': 1}])]
@@ -55,8 +84,8 @@ def gen_value(rng, depth, allow_unknown):
     return ['ref', rng.choice(UNKNOWN_R), rng.random() < 0.5, rng.choice(['', 'sc', 'a/b'])]
   n = rng.choice([1, 2, 3])
   if r < 0.8:
-    return ['list', [gen_value(rng, depth - 1, allow_unknown) for _ in range(n)]]
-  return ['dict', [['k%d' % i, gen_value(rng, depth - 1, allow_unknown)] for i in range(n)]]
+    return ['list', [gen_value(rng, depth - 1, allow_unknown, macros) for _ in range(n)]]
+  return ['dict', [['k%d' % i, gen_value(rng, depth - 1, allow_unknown, macros)] for i in range(n)]]
 
 
 def vtext(v):
@@ -64,6 +93,8 @@ def vtext(v):
     return repr(v[1])
   if v[0] == 'ref':
     return '@' + (v[3] + '/' if v[3] else '') + v[1] + ('()' if v[2] else '')
+  if v[0] == 'mref':
+    return '%' + v[1]
   if v[0] == 'list':
     return '[' + ', '.join(vtext(x) for x in v[1]) + ']'
   return '{' + ', '.join('%r: %s' % (a, vtext(b)) for a, b in v[1]) + '}'
@@ -82,41 +113,80 @@ def refs_in(v, depth=0, out=None):
   return out
 
 
+def mrefs_in(v, out=None):
+  out = [] if out is None else out
+  if v[0] == 'mref':
+    out.append(v[1])
+  elif v[0] == 'list':
+    for x in v[1]:
+      mrefs_in(x, out)
+  elif v[0] == 'dict':
+    for _, x in v[1]:
+      mrefs_in(x, out)
+  return out
+
+
 def gen_static(rng):
   skipkind = rng.choice(['False', 'True', 'list', 'tuple', 'set'])
   listed = []
-  if skipkind in ('list', 'tuple', 'set'):
+  empty = False
+  if skipkind in COLL:
     pool = UNKNOWN_T + UNKNOWN_R
-    listed = rng.sample(pool, rng.randrange(1, len(pool) + 1))
-    if rng.random() < 0.4:
+    r = rng.random()
+    if r < 0.1:
+      empty = True   # an empty collection: no unknown name is covered
+    elif r < 0.4:
+      listed = rng.sample(pool, len(pool))
+    else:
+      listed = rng.sample(pool, rng.randrange(1, len(pool) + 1))
+    if not empty and rng.random() < 0.4:
       listed += rng.sample(sorted(KNOWN) + ['c15cons'], rng.choice([1, 2]))  # listing a known name must not make it skippable
+  # grey (not asserted): whether an EMPTY collection still skips imports of missing modules -> no such import in those texts
+  mods = ['os', 'json'] if empty else MISSING_MODS + ['os', 'json']
   def applies(name):
     return skipkind == 'True' or name in listed
+  def sanitise(tgt, val):
+    # DESIGN X: in list mode no unlisted unknown reference inside a binding that is itself skipped
+    if tgt in UNKNOWN_T and skipkind in COLL and any(n in UNKNOWN_R and not applies(n) for n, _ in refs_in(val)):
+      return ['lit', 0]
+    return val
   stmts = []
+  macros = []
   for _ in range(rng.choice([2, 3, 5, 8])):
     r = rng.random()
     if r < 0.4:
       tgt = rng.choice(sorted(KNOWN) if rng.random() < 0.5 else UNKNOWN_T)
-      allow_unk = True
-      # DESIGN X: in list mode no unlisted unknown reference inside a binding that is itself skipped
-      val = gen_value(rng, rng.choice([0, 1, 2, 3]), allow_unk)
-      if tgt in UNKNOWN_T and skipkind in ('list', 'tuple', 'set') and any(n in UNKNOWN_R and not applies(n) for n, _ in refs_in(val)):
-        val = ['lit', 0]
+      val = sanitise(tgt, gen_value(rng, rng.choice([0, 1, 2, 3]), True, macros))
       if tgt in ('c15g', 'm.c15g'):
         val = ['lit', 5]  # keep the reference graph acyclic (c15g is the one referenced configurable)
       stmts.append(['bind', rng.choice(['', '', 'sc', 'a/b']), tgt, rng.choice(['x', 'y', 'z']), val])
     elif r < 0.6:
       tgt = rng.choice(sorted(KNOWN) if rng.random() < 0.4 else UNKNOWN_T)
-      members = [[p, gen_value(rng, rng.choice([0, 1]), tgt in KNOWN) if tgt not in ('c15g', 'm.c15g') else ['lit', 6]]
+      members = [[p, sanitise(tgt, gen_value(rng, rng.choice([0, 1]), True, macros)) if tgt not in ('c15g', 'm.c15g') else ['lit', 6]]
                  for p in rng.sample(['x', 'y', 'z'], rng.choice([1, 2]))]
-      stmts.append(['block', rng.choice(['', 'sc']), tgt, members])
+      stmts.append(['block', rng.choice(['', 'sc', 'a/b']), tgt, members])
     elif r < 0.75:
-      stmts.append(['macro', rng.choice(['c15m1', 'a/c15m2']), gen_value(rng, rng.choice([0, 1, 2]), True)])
+      name = rng.choice(['c15m1', 'a/c15m2'])
+      stmts.append(['macro', name, gen_value(rng, rng.choice([0, 1, 2]), True)])
+      if name not in macros:
+        macros.append(name)
     elif r < 0.9:
-      stmts.append(['import', rng.choice(MISSING_MODS + ['os', 'json'])])
+      stmts.append(['import', rng.choice(mods), rng.choice(['', '', 'from', 'as'])])
     else:
-      stmts.append(['bind', '', 'c15cons', rng.choice(['v', 'w']), gen_value(rng, rng.choice([1, 2, 3]), True)])
-  return {'mode': 'static', 'skipkind': skipkind, 'listed': listed, 'stmts': stmts}
+      stmts.append(['bind', rng.choice(['', '', '', 'sc', 'a/b']), 'c15cons', rng.choice(['v', 'w']), gen_value(rng, rng.choice([1, 2, 3]), True, macros)])
+  cuts = sorted([rng.randrange(len(stmts) + 1), rng.randrange(len(stmts) + 1)])
+  return {'mode': 'static', 'skipkind': skipkind, 'listed': listed, 'stmts': stmts, 'entry': rng.choice(ENTRIES), 'cuts': cuts,
+          'nested': rng.random() < 0.4, 'real_files': rng.random() < 0.2}
+
+
+def import_text(mod, form):
+  if form == 'from':
+    if '.' in mod:
+      return 'from %s import %s' % tuple(mod.rsplit('.', 1))
+    return 'from %s import %s' % (mod, {'os': 'path', 'json': 'decoder'}.get(mod, 'thing'))
+  if form == 'as':
+    return 'import %s as c15al_%s' % (mod, mod.replace('.', '_'))
+  return 'import ' + mod
 
 
 def render(stmts):
@@ -131,8 +201,8 @@ def render(stmts):
     elif st[0] == 'macro':
       lines.append('%s = %s' % (st[1], vtext(st[2])))
     else:
-      lines.append('import ' + st[1])
-  return '\n'.join(lines) + '\n'
+      lines.append(import_text(st[1], st[2] if len(st) > 2 else ''))
+  return '\n'.join(lines) + '\n' if lines else ''
 
 
 def skip_value(case):
@@ -142,6 +212,56 @@ def skip_value(case):
   if k == 'True':
     return True
   return {'list': list, 'tuple': tuple, 'set': set}[k](case['listed'])
+
+
+MEM_ROOT = '/vf-c15-in-memory/'   # config "files" served by a registered file reader (gin.config.register_file_reader): no disk traffic
+
+
+def _mem_open(path):
+  import io
+  return io.StringIO(_S['mem'][path])
+
+
+def _write(tag, text, real=False):
+  """One of a few per-worker config files (rewritten for every case): on disk, or served from memory by a registered file reader."""
+  if not real:
+    path = MEM_ROOT + 'c15_%s.gin' % tag
+    _S.setdefault('mem', {})[path] = text
+    return path
+  path = os.path.join(_S['tree'].root, 'c15_%s.gin' % tag)
+  with open(path, 'w') as fh:
+    fh.write(text)
+  return path
+
+
+def drive(case, stmts, skip):
+  """Feeds the statements to gin through the case's entry point (every one must behave like parse_config(whole text)); returns the exception or None."""
+  import gin
+  entry = case.get('entry', 'text')
+  a, b = case.get('cuts', [0, 0])
+  real = bool(case.get('real_files'))
+  try:
+    if entry == 'file':
+      gin.parse_config_file(_write('a', render(stmts), real), skip_unknown=skip)
+    elif entry == 'include':
+      inner = stmts[a:b]
+      if case.get('nested'):
+        m = len(inner) // 2
+        inc = render(inner[:m]) + "include '%s'\n" % _write('c', render(inner[m:]), real)
+      else:
+        inc = render(inner)
+      gin.parse_config(render(stmts[:a]) + "include '%s'\n" % _write('b', inc, real) + render(stmts[b:]), skip_unknown=skip)
+    elif entry == 'fab':
+      files = [_write('a', render(stmts[:a]), real), _write('b', render(stmts[a:b]), real)]
+      gin.parse_config_files_and_bindings(files, render(stmts[b:]).split('\n'), finalize_config=False, skip_unknown=skip)
+    elif entry == 'two-parses':
+      gin.parse_config(render(stmts[:a]), skip_unknown=skip)
+      gin.parse_config(render(stmts[a:]), skip_unknown=skip)   # onto the live configuration
+    else:
+      gin.parse_config(render(stmts), skip_unknown=skip)
+  except Exception as e:  # pylint: disable=broad-except
+    return e
+  return None
 
 
 def analyse_static(case):
@@ -191,6 +311,62 @@ def expected_store(stmts):
   return exp
 
 
+def final_bindings(stmts):
+  """Like expected_store, but keeps the generator's value trees: {(scope, complete selector): {param: tree}} (last writer wins)."""
+  fin = {}
+  for st in stmts:
+    if st[0] == 'bind':
+      fin.setdefault((st[1], KNOWN.get(st[2], FULL['c15cons'])), {})[st[3]] = st[4]
+    elif st[0] == 'block':
+      for p, v in st[3]:
+        fin.setdefault((st[1], KNOWN[st[2]]), {})[p] = v
+    elif st[0] == 'macro':
+      fin.setdefault((st[1], 'gin.macro'), {})['value'] = st[2]
+  return fin
+
+
+def merged(fin, scope, sel):
+  """What a call of `sel` under `scope` receives: outer scopes first, the most specific scope wins."""
+  out = {}
+  parts = scope.split('/') if scope else []
+  for i in range(len(parts) + 1):
+    out.update(fin.get(('/'.join(parts[:i]), sel), {}))
+  return out
+
+
+def reach(fin, v, out, depth=0):
+  """Unknown names whose placeholder is met when the value tree `v` is evaluated (through %macros and evaluated references)."""
+  if depth > 8:
+    return out
+  if v[0] == 'ref':
+    if v[1] in UNKNOWN_R:
+      out.append(v[1])
+    elif v[2]:
+      for x in merged(fin, v[3], FULL['c15g']).values():
+        reach(fin, x, out, depth + 1)
+  elif v[0] == 'mref':
+    mv = fin.get((v[1], 'gin.macro'), {}).get('value')
+    if mv is not None:
+      reach(fin, mv, out, depth + 1)
+  elif v[0] == 'list':
+    for x in v[1]:
+      reach(fin, x, out, depth)
+  elif v[0] == 'dict':
+    for _, x in v[1]:
+      reach(fin, x, out, depth)
+  return out
+
+
+def binding_in(msg, scope, sel, param):
+  """Does the message name the binding scope/selector.param (the selector in any of its spellings)?"""
+  parts = sel.split('.')
+  for i in range(len(parts)):
+    key = '.'.join(parts[i:]) + '.' + param
+    if ((scope + '/' + key) if scope else key) in msg:
+      return True
+  return False
+
+
 def vcanon(v):
   if v[0] == 'lit':
     return canon(v[1])
@@ -198,9 +374,71 @@ def vcanon(v):
     if v[1] in UNKNOWN_R:
       return ('unk', v[1], bool(v[2]))
     return ('ref', (v[3] + '/' if v[3] else '') + 'c15.m.c15g', bool(v[2]))
+  if v[0] == 'mref':
+    return ('ref', v[1] + '/gin.macro', True)
   if v[0] == 'list':
     return ('list', tuple(vcanon(x) for x in v[1]))
   return ('dict', tuple((canon(a), vcanon(b)) for a, b in v[1]))
+
+
+def check_placeholders(ctx, fin, text):
+  """On the live configuration: finalize and every use that meets a placeholder raise 'No configurable matching', naming an unknown selector
+  that is really there (finalize: and a binding holding it).  Returns whether finalize() raised."""
+  import gin
+  holders = []   # what the finalize hook can report: bindings whose stored value holds a placeholder
+  for (scope, sel), d in fin.items():
+    for prm, v in d.items():
+      names = [n for n, _ in refs_in(v) if n in UNKNOWN_R]
+      if names:
+        holders.append((scope, sel, prm, names))
+  fin_exc = None
+  try:
+    gin.finalize()
+  except Exception as e:  # pylint: disable=broad-except
+    fin_exc = e
+  if holders:
+    ctx.count('placeholders_checked')
+    if ctx.check(fin_exc is not None, 'finalize-accepted-unknown-reference', 'finalize() succeeded although the config holds references to unknown configurables\n' + text):
+      ctx.bucket('placeholder:finalize-raises')
+      msg = str(fin_exc)
+      ctx.check(isinstance(fin_exc, ValueError) and 'No configurable matching' in msg, 'placeholder-error-message', 'finalize error: %s: %s' % (type(fin_exc).__name__, msg[:200]))
+      if ctx.check(any(n in msg for h in holders for n in h[3]), 'placeholder-error-names-other-selector',
+                   'finalize error names none of the unknown selectors held by the configuration %r: %s\n%s' % (sorted({n for h in holders for n in h[3]}), msg[:300], text)):
+        ctx.bucket('placeholder:error-names-selector')
+        if ctx.check(any(binding_in(msg, h[0], h[1], h[2]) for h in holders if any(n in msg for n in h[3])), 'finalize-error-names-other-binding',
+                     'finalize error does not name a binding that holds the reported reference (candidates %r): %s\n%s' % ([h[:3] for h in holders], msg[:300], text)):
+          ctx.bucket('placeholder:finalize-names-binding')
+    ctx.check(not gin.config_is_locked(), 'rejected-finalize-locked', 'finalize rejected but config locked')
+  for name in ('c15f', 'c15cons'):
+    for sc in USE_SCOPES:
+      vals = merged(fin, sc, FULL[name])
+      names = []
+      for v in vals.values():
+        reach(fin, v, names)
+      if not names:
+        continue
+      exc = None
+      try:
+        with gin.config_scope(sc or None):
+          _S[name if name != 'c15cons' else 'cons'].conf()
+      except Exception as e:  # pylint: disable=broad-except
+        exc = e
+      if not ctx.check(exc is not None, 'placeholder-use-did-not-raise',
+                       '%s called under scope %r ran although its arguments hold placeholders for %r\n%s' % (name, sc, sorted(set(names)), text)):
+        continue
+      ctx.bucket('placeholder:use-raises')
+      if sc:
+        ctx.bucket('placeholder:use-scoped')
+      if name == 'c15f':
+        ctx.bucket('placeholder:use-in-c15f')
+      if any(mrefs_in(v) for v in vals.values()) and not any(n in UNKNOWN_R for v in vals.values() for n, _ in refs_in(v)):
+        ctx.bucket('placeholder:use-through-macro')
+      msg = str(exc)
+      ctx.check(isinstance(exc, ValueError) and 'No configurable matching' in msg, 'placeholder-error-message', 'use error: %s: %s' % (type(exc).__name__, msg[:200]))
+      if ctx.check(any(n in msg for n in names), 'placeholder-error-names-other-selector',
+                   'use of %s under scope %r: the error names none of the unknown selectors its arguments hold %r: %s\n%s' % (name, sc, sorted(set(names)), msg[:300], text)):
+        ctx.bucket('placeholder:error-names-selector')
+  return fin_exc is not None
 
 
 def run_static(ctx, case):
@@ -209,6 +447,14 @@ def run_static(ctx, case):
   ctx.bucket('mode:static')
   ctx.bucket('skip:' + case['skipkind'])
   stmts = case['stmts']
+  entry = case.get('entry', 'text')
+  ctx.bucket('entry:' + entry)
+  if entry == 'include' and case.get('nested'):
+    ctx.bucket('entry:include-nested')
+  if entry in ('file', 'include', 'fab'):
+    ctx.bucket('entry:files-on-disk' if case.get('real_files') else 'entry:files-in-memory')
+  if case['skipkind'] in COLL and not case['listed']:
+    ctx.bucket('skip:empty-collection')
   for st in stmts:
     if st[0] == 'bind' and st[2] in UNKNOWN_T:
       ctx.bucket('stmt:flat-unknown')
@@ -216,15 +462,27 @@ def run_static(ctx, case):
         ctx.bucket('stmt:scoped-unknown')
       if '.' in st[2]:
         ctx.bucket('stmt:module-qualified-unknown')
+    if st[0] in ('bind', 'block') and st[2] in WRONG_T:
+      ctx.bucket('stmt:wrong-module-spelling-target')
     if st[0] == 'block' and st[2] in UNKNOWN_T:
       ctx.bucket('stmt:block-unknown')
+      if any(n in UNKNOWN_R for _, v in st[3] for n, _ in refs_in(v)):
+        ctx.bucket('stmt:unknown-block-with-unknown-ref')
+    if st[0] == 'block' and '/' in st[1]:
+      ctx.bucket('stmt:block-under-nested-scope')
     if st[0] == 'import' and st[1] in MISSING_MODS:
       ctx.bucket('stmt:missing-import')
+      if len(st) > 2 and st[2]:
+        ctx.bucket('stmt:missing-import-' + st[2])
     vals = [st[4]] if st[0] == 'bind' else ([st[2]] if st[0] == 'macro' else ([v for _, v in st[3]] if st[0] == 'block' else []))
     for v in vals:
+      if mrefs_in(v):
+        ctx.bucket('stmt:macro-reference')
       for name, d in refs_in(v):
         if name in UNKNOWN_R:
           ctx.bucket('stmt:macro-with-unknown-ref' if st[0] == 'macro' else 'stmt:known-with-unknown-ref')
+          if name in WRONG_R:
+            ctx.bucket('stmt:wrong-module-spelling-ref')
           if d >= 2:
             ctx.bucket('ref:nested-depth2+')
   if any(n in KNOWN or n == 'c15cons' for n in case['listed']):
@@ -234,61 +492,53 @@ def run_static(ctx, case):
   err_at, reduced = analyse_static(case)
   text = render(stmts)
   skip = skip_value(case)
-  ctx.fp('static', tuple(s[0] + ':' + (str(s[2] in UNKNOWN_T) if s[0] in ('bind', 'block') else '') for s in stmts), case['skipkind'], tuple(sorted(case['listed'])))
-  ctx.sample({'mode': 'static', 'skip_unknown': repr(skip), 'text': text, 'first_error_statement': err_at}, cap=3)
+  ctx.fp('static', tuple(s[0] + ':' + (str(s[2] in UNKNOWN_T) if s[0] in ('bind', 'block') else '') for s in stmts), case['skipkind'], tuple(sorted(case['listed'])), entry)
+  ctx.sample({'mode': 'static', 'skip_unknown': repr(skip), 'entry': entry, 'text': text, 'first_error_statement': err_at}, cap=3)
   gin.clear_config()
-  exc = None
-  try:
-    gin.parse_config(text, skip_unknown=skip)
-  except Exception as e:  # pylint: disable=broad-except
-    exc = e
+  exc = drive(case, stmts, skip)
+  where = 'entry %s, cuts %r, skip_unknown=%r' % (entry, case.get('cuts'), skip)
   if err_at is not None:
     ctx.bucket('outcome:error-unlisted')
+    if entry != 'text':
+      ctx.bucket('entry:other-than-text-error-unlisted')
     ctx.check(exc is not None, 'unknown-name-not-covered-by-setting-accepted',
-              'statement %d (%r) targets/uses an unknown name not covered by skip_unknown=%r but parsing succeeded' % (err_at, stmts[err_at], skip))
+              'statement %d (%r) targets/uses an unknown name not covered by the setting but parsing succeeded (%s)\n%s' % (err_at, stmts[err_at], where, text))
+    gin.clear_config()
     return
-  if not ctx.check(exc is None, 'skippable-text-rejected', 'skip_unknown=%r: parse raised %s: %s\n%s' % (skip, type(exc).__name__, str(exc)[:300], text)):
+  if not ctx.check(exc is None, 'skippable-text-rejected', '%s: parse raised %s: %s\n%s' % (where, type(exc).__name__, str(exc)[:300], text)):
+    gin.clear_config()
     return
   got = snap.store_nonempty(gc)
   imports = sorted({s.module for s in gc._IMPORTS})
   # generator's own list of kept bindings
   exp = expected_store(reduced)
-  ctx.check(got == exp, 'store-differs-from-kept-bindings', 'skip_unknown=%r: store differs from the kept bindings: %r\n%s' % (skip, snap.diff(got, exp), text))
-  # reduced-text oracle
+  ctx.check(got == exp, 'store-differs-from-kept-bindings', '%s: store differs from the kept bindings: %r\n%s' % (where, snap.diff(got, exp), text))
+  # placeholders raise on use and at finalize (on the configuration the entry point produced)
+  fin = final_bindings(reduced)
+  if entry == 'two-parses' and any(n in UNKNOWN_R for d in final_bindings([st for st in stmts[:case['cuts'][0]] if st in reduced]).values()
+                                   for v in d.values() for n, _ in refs_in(v)):
+    ctx.bucket('entry:second-parse-onto-live-placeholders')
+  fin_raised = check_placeholders(ctx, fin, text)
+  # reduced-text oracle (always the plain parse_config of one text)
   gin.clear_config()
   gin.parse_config(render(reduced), skip_unknown=skip)
   ctx.count('reduced_compared')
   red = snap.store_nonempty(gc)
   ctx.check(got == red and imports == sorted({s.module for s in gc._IMPORTS}), 'store-differs-from-reduced-text',
-            'parse(text) != parse(reduced text) under skip_unknown=%r: %r' % (skip, snap.diff(got, red)))
+            'parse(text) != parse(reduced text) (%s): %r\n%s' % (where, snap.diff(got, red), text))
+  red_raised = False
+  try:
+    gin.finalize()
+  except Exception:  # pylint: disable=broad-except
+    red_raised = True
+  ctx.bucket('finalize:same-outcome-as-reduced')
+  ctx.check(fin_raised == red_raised, 'finalize-outcome-differs-from-reduced-text',
+            'finalize() %s on the parsed text but %s on the reduced text (%s)\n%s' % ('raised' if fin_raised else 'passed', 'raised' if red_raised else 'passed', where, text))
   ctx.bucket('outcome:skipped' if len(reduced) != len(stmts) else 'outcome:all-known')
-  # placeholders raise on use and at finalize
-  def holds_unk(c):
-    return c[0] == 'unk' if (isinstance(c, tuple) and c and c[0] in ('unk', 'ref')) else (isinstance(c, tuple) and any(holds_unk(x) for x in c if isinstance(x, tuple)))
-  has_ph = any(holds_unk(c) for d in exp.values() for c in d.values())  # last writer wins: only what is still in the store
-  cons_ph = [st for st in reduced if st[0] == 'bind' and st[2] == 'c15cons' and any(n in UNKNOWN_R for n, _ in refs_in(st[4]))]
-  if has_ph:
-    ctx.count('placeholders_checked')
-    try:
-      gin.finalize()
-      ctx.check(False, 'finalize-accepted-unknown-reference', 'finalize() succeeded although the config holds references to unknown configurables')
-    except ValueError as e:
-      ctx.bucket('placeholder:finalize-raises')
-      ctx.check('No configurable matching' in str(e), 'placeholder-error-message', 'finalize error: %s' % str(e)[:200])
-    ctx.check(not gin.config_is_locked(), 'rejected-finalize-locked', 'finalize rejected but config locked')
-  if cons_ph:
-    last = {}
-    for st in reduced:
-      if st[0] == 'bind' and st[2] == 'c15cons' and not st[1]:
-        last[st[3]] = st[4]
-    if any(n in UNKNOWN_R for v in last.values() for n, _ in refs_in(v)):
-      try:
-        _S['cons'].conf()
-        ctx.check(False, 'placeholder-use-did-not-raise', 'consumer with a placeholder argument ran')
-      except ValueError as e:
-        ctx.bucket('placeholder:use-raises')
-        ctx.check('No configurable matching' in str(e), 'placeholder-error-message', 'use error: %s' % str(e)[:200])
+  if entry != 'text' and len(reduced) != len(stmts):
+    ctx.bucket('entry:other-than-text-skipped')
   gin.clear_config()
+  probes.RECORDER.clear()
 
 
 # ---------------------------------------------------------------------------
@@ -331,10 +581,35 @@ def gen_dynamic(rng):
       if t in avail:
         continue
       stmts.append(['bind', rng.choice(['', 'sc']), t, bad[t], rng.randrange(100), False])
-  if rng.random() < 0.3 and 'gamma.fg' in avail:
+  if rng.random() < 0.5 and 'gamma.fg' in avail:
     ref_t = rng.choice(['nothere.g', 'PK.alpha.nofn'] + ([k for k in avail if k.endswith('fb') or k.endswith('fa')]))
-    stmts.append(['bindref', '', 'gamma.fg', 'ref', ref_t, ref_t in avail])
-  return {'mode': 'dynamic', 'imports': imports, 'stmts': stmts, 'skip': rng.choice([True, True, False, 'list'])}
+    stmts.append(['bindref', rng.choice(['', '', 'sc']), 'gamma.fg', 'ref', ref_t, ref_t in avail, rng.choice(['call', 'call', 'plain', 'list', 'dict'])])
+  return {'mode': 'dynamic', 'imports': imports, 'stmts': stmts, 'skip': rng.choice([True, True, False, 'list', 'list', 'tuple', 'set']),
+          'full': rng.random() < 0.6, 'mask': [rng.random() < 0.7 for _ in range(8)], 'list_known': rng.random() < 0.3,
+          'entry': rng.choice(['text', 'text', 'file', 'fab']), 'real_files': rng.random() < 0.2}
+
+
+REF_SHAPES = {'call': '@%s()', 'plain': '@%s', 'list': '[1, @%s()]', 'dict': "{'k': @%s}"}
+
+
+def ref_canon(shape, c):
+  """Canonical stored form of the bindref value, given the canonical form `c(evaluate)` of the reference itself."""
+  if shape == 'call':
+    return c(True)
+  if shape == 'plain':
+    return c(False)
+  if shape == 'list':
+    return ('list', (canon(1), c(True)))
+  return ('dict', ((canon('k'), c(False)),))
+
+
+def anon_refs(c):
+  """The canonical value with the selector of every real reference blanked (how dynamic registration names a configurable is not C15's business)."""
+  if isinstance(c, tuple) and len(c) == 3 and c[0] == 'ref':
+    return ('ref', '*', c[2])
+  if isinstance(c, tuple):
+    return tuple(anon_refs(x) for x in c)
+  return c
 
 
 def dyn_render(case, pk, stmts):
@@ -343,20 +618,36 @@ def dyn_render(case, pk, stmts):
     if st[0] == 'bind':
       lines.append('%s%s.%s = %d' % (st[1] + '/' if st[1] else '', st[2].replace('PK', pk), st[3], st[4]))
     else:
-      lines.append('%s.%s = @%s()' % (st[2], st[3], st[4].replace('PK', pk)))
+      lines.append('%s%s.%s = %s' % (st[1] + '/' if st[1] else '', st[2], st[3], REF_SHAPES[st[6]] % st[4].replace('PK', pk)))
   return '\n'.join(lines) + '\n'
 
 
 def run_dynamic(ctx, case):
+  import importlib
   import gin
   from gin import config as gc
   ctx.bucket('mode:dynamic')
   pk = _S['tree'].new_package('c15')
   stmts = case['stmts']
   unknown_names = sorted({(st[2] if st[0] == 'bind' else st[4]).replace('PK', pk) for st in stmts if not st[5]})
-  if case['skip'] == 'list':
-    skip = list(unknown_names)
-    ctx.bucket('skip:list')
+  has_missing_import = any('vf_missing_mod_dyn' in i for i in case['imports'])
+  uncovered = []
+  if case['skip'] in COLL:
+    listed = list(unknown_names) if case['full'] else [n for n, m in zip(unknown_names, case['mask']) if m]
+    known_names = sorted({(st[2] if st[0] == 'bind' else st[4]).replace('PK', pk) for st in stmts if st[5]})
+    if case['list_known'] and known_names and listed:
+      listed.append(known_names[0])   # listing a known name must not make it skippable
+      ctx.bucket('dynamic:list-includes-known-name')
+    if not listed and has_missing_import:
+      listed = ['vf.c15.name_not_in_the_text']   # grey (not asserted): whether an EMPTY collection still skips imports of missing modules
+    uncovered = [n for n in unknown_names if n not in listed]
+    skip = {'list': list, 'tuple': tuple, 'set': set}[case['skip']](listed)
+    ctx.bucket('skip:' + case['skip'])
+    ctx.bucket('dynamic:skip-' + case['skip'])
+    if not listed:
+      ctx.bucket('skip:empty-collection')
+    elif uncovered:
+      ctx.bucket('list:partial')
   else:
     skip = case['skip']
     ctx.bucket('skip:' + str(skip))
@@ -364,7 +655,6 @@ def run_dynamic(ctx, case):
     if not st[5]:
       t = st[2] if st[0] == 'bind' else st[4]
       ctx.bucket('dynamic:attribute-missing' if t in ('PK.alpha.nofn', 'B.K.nometh', 'SA.fa.oops') else 'dynamic:name-not-imported')
-  has_missing_import = any('vf_missing_mod_dyn' in i for i in case['imports'])
   if has_missing_import:
     ctx.bucket('dynamic:missing-import')
   all_ok = all(st[5] for st in stmts) and not has_missing_import
@@ -372,26 +662,39 @@ def run_dynamic(ctx, case):
   reduced_stmts = [st for st in stmts if st[0] == 'bind' and st[5] or st[0] == 'bindref']
   reduced_case = dict(case, imports=[i for i in case['imports'] if 'vf_missing_mod_dyn' not in i])
   reduced = dyn_render(reduced_case, pk, reduced_stmts)
-  ctx.fp('dynamic', tuple(case['imports']), tuple((st[0], st[2], st[5]) for st in stmts), str(case['skip']))
-  ctx.sample({'mode': 'dynamic', 'skip_unknown': repr(skip), 'text': text}, cap=3)
+  entry = case.get('entry', 'text')
+  ctx.fp('dynamic', tuple(case['imports']), tuple((st[0], st[2], st[5]) for st in stmts), str(case['skip']), bool(uncovered), entry)
+  ctx.sample({'mode': 'dynamic', 'skip_unknown': repr(skip), 'entry': entry, 'text': text}, cap=3)
 
-  def parse(t, s):
+  def parse(t, s, how='text'):
     gin.clear_config()
     try:
-      gin.parse_config(t, skip_unknown=s)
+      if how == 'file':
+        gin.parse_config_file(_write('d', t, bool(case.get('real_files'))), skip_unknown=s)
+      elif how == 'fab':
+        gin.parse_config_files_and_bindings([_write('d', t, bool(case.get('real_files')))], None, finalize_config=False, skip_unknown=s)
+      else:
+        gin.parse_config(t, skip_unknown=s)
       return None
     except Exception as e:  # pylint: disable=broad-except
       return e
 
-  expect_error = (not skip) and not all_ok
+  # an unknown name (as a target or inside a value) not covered by the setting is an error; so is a missing import when nothing is skipped
+  expect_error = (skip is False and not all_ok) or bool(uncovered)
   # the bindref statement holds a reference: unknown reference -> placeholder when skipping
-  e1 = parse(text, skip)
+  e1 = parse(text, skip, entry)
   ctx.bucket('dynamic:first-use')
+  if entry != 'text':
+    ctx.bucket('dynamic:entry-' + entry)
   if expect_error:
     ctx.bucket('outcome:error-unlisted')
-    ctx.check(e1 is not None, 'unknown-name-not-covered-by-setting-accepted', 'dynamic: unknown names with skip_unknown=%r accepted\n%s' % (skip, text))
+    if uncovered:
+      ctx.bucket('dynamic:partial-list-error')
+    ctx.check(e1 is not None, 'unknown-name-not-covered-by-setting-accepted',
+              'dynamic (entry %s): unknown names %r not covered by skip_unknown=%r, yet accepted\n%s' % (entry, uncovered or unknown_names, skip, text))
+    gin.clear_config()
     return
-  if not ctx.check(e1 is None, 'skippable-text-rejected', 'dynamic first-use parse with skip_unknown=%r raised %s: %s\n%s' % (skip, type(e1).__name__, str(e1)[:300], text)):
+  if not ctx.check(e1 is None, 'skippable-text-rejected', 'dynamic first-use parse (entry %s) with skip_unknown=%r raised %s: %s\n%s' % (entry, skip, type(e1).__name__, str(e1)[:300], text)):
     return
   first = snap.store_nonempty(gc)
   # the generator's own expectation: every resolvable binding applied under the complete name of the resolved object
@@ -400,6 +703,46 @@ def run_dynamic(ctx, case):
   got_n = sum(len(d) for (sc, sel), d in first.items() if not sel.endswith('gamma.fg') or True) - sum(1 for st in stmts if st[0] == 'bindref')
   ctx.check(got_n == nkept, 'dynamic-first-use-binding-of-resolvable-name-dropped',
             'dynamic registration, skip_unknown=%r: %d bindings of resolvable names in the text, %d in the store: %r\n%s' % (skip, nkept, got_n, first, text))
+  # the binding holding a reference: a placeholder for an unknown name (kept in the store, raising on use and at finalize), a real reference otherwise
+  for st in stmts:
+    if st[0] != 'bindref':
+      continue
+    written = st[4].replace('PK', pk)
+    stored = first.get((st[1], pk + '.sub.gamma.fg'), {}).get('ref')
+    if st[5]:
+      want = ref_canon(st[6], lambda ev: ('ref', '*', ev))
+      ctx.bucket('dynamic:known-reference-kept')
+      ctx.check(anon_refs(stored) == want, 'dynamic-known-reference-not-kept-as-reference',
+                'dynamic, skip_unknown=%r: the binding of gamma.fg.ref holds %r, expected the reference %r\n%s' % (skip, stored, want, text))
+      continue
+    want = ref_canon(st[6], lambda ev: ('unk', written, ev))
+    ctx.count('placeholders_checked')
+    ctx.bucket('dynamic:placeholder-in-store')
+    ctx.check(stored == want, 'dynamic-placeholder-not-kept',
+              'dynamic, skip_unknown=%r: the binding of gamma.fg.ref holds %r, expected the placeholder %r\n%s' % (skip, stored, want, text))
+    fg = importlib.import_module(pk + '.sub.gamma').fg
+    exc = None
+    try:
+      with gin.config_scope(st[1] or None):
+        gin.get_configurable(fg)()
+    except Exception as e:  # pylint: disable=broad-except
+      exc = e
+    if ctx.check(exc is not None, 'placeholder-use-did-not-raise', 'dynamic: gamma.fg ran under scope %r although its argument holds a placeholder for %r\n%s' % (st[1], written, text)):
+      ctx.bucket('dynamic:placeholder-use-raises')
+      ctx.check(isinstance(exc, ValueError) and 'No configurable matching' in str(exc), 'placeholder-error-message', 'dynamic use error: %s: %s' % (type(exc).__name__, str(exc)[:200]))
+      ctx.check(written in str(exc), 'placeholder-error-names-other-selector', 'dynamic use: the error does not name %r: %s\n%s' % (written, str(exc)[:300], text))
+    exc = None
+    try:
+      gin.finalize()
+    except Exception as e:  # pylint: disable=broad-except
+      exc = e
+    if ctx.check(exc is not None, 'finalize-accepted-unknown-reference', 'dynamic: finalize() succeeded although gamma.fg.ref holds a placeholder for %r\n%s' % (written, text)):
+      ctx.bucket('dynamic:placeholder-finalize-raises')
+      ctx.check(isinstance(exc, ValueError) and 'No configurable matching' in str(exc), 'placeholder-error-message', 'dynamic finalize error: %s: %s' % (type(exc).__name__, str(exc)[:200]))
+      if ctx.check(written in str(exc), 'placeholder-error-names-other-selector', 'dynamic finalize: the error does not name %r: %s\n%s' % (written, str(exc)[:300], text)):
+        ctx.check(binding_in(str(exc), st[1], pk + '.sub.gamma.fg', 'ref'), 'finalize-error-names-other-binding',
+                  'dynamic finalize: the error does not name the binding %s%s.ref: %s\n%s' % (st[1] + '/' if st[1] else '', 'gamma.fg', str(exc)[:300], text))
+    ctx.check(not gin.config_is_locked(), 'rejected-finalize-locked', 'finalize rejected but config locked')
   e2 = parse(text, skip)
   ctx.bucket('dynamic:repeat')
   second = snap.store_nonempty(gc)
@@ -469,6 +812,14 @@ def run_late_known(ctx, case):
   ctx.count('reduced_compared')
   ctx.check(got == want, 'binding-after-import-made-name-known-not-applied',
             'late-known: the statement before the import must be skipped, those after it applied: store %r, expected %r\n%s' % (got, want, text))
+  # the skipped statement left nothing behind: the configuration holds bindings of known configurables only, finalize() has nothing to report
+  try:
+    gin.finalize()
+    exc = None
+  except Exception as e:  # pylint: disable=broad-except
+    exc = e
+  ctx.bucket('late-known:finalize-passes')
+  ctx.check(exc is None, 'finalize-rejected-config-without-placeholders', 'late-known: finalize() raised %s: %s\n%s' % (type(exc).__name__, str(exc)[:300], text))
   gin.clear_config()
 
 
@@ -484,8 +835,13 @@ def run_case(ctx, case):
 LEVEL_TEXT = ('Runtime metamorphic monitor: for every generated text and skip_unknown setting the real parse is compared with the parse of the reduced '
               'text (statements deleted by an independent rule) and with the generator\'s own list of kept bindings; placeholders are exercised (use and '
               'finalize must raise "No configurable matching"); under dynamic registration each text is parsed as first use (fresh package), again after '
-              'registration, in reduced form and, when everything resolves, with skip_unknown=False.')
-LEVEL_NOTE = ('Trusted: the deletion rule in analyse_static/gen_dynamic. In list mode, unlisted unknown references inside a binding that is itself skipped '
-              'are not generated (DESIGN X).')
+              'registration, in reduced form and, when everything resolves, with skip_unknown=False. The text reaches gin through parse_config, '
+              'parse_config_file, include statements (nested), parse_config_files_and_bindings or two successive parses; placeholders are used through '
+              'every consumer and scope that an independent evaluation model says meets one (also through %macros), and the errors must name an unknown '
+              'selector that is really there (at finalize: with a binding holding it); dynamic registration also with partial lists/tuples/sets '
+              '(unlisted -> error) and with the placeholder checked in the store, on use and at finalize.')
+LEVEL_NOTE = ('Trusted: the deletion rule in analyse_static/gen_dynamic and the evaluation model merged()/reach(). In list mode, unlisted unknown references '
+              'inside a binding that is itself skipped are not generated (DESIGN X). Not asserted: whether an EMPTY collection still skips imports of '
+              'missing modules; whether a placeholder keeps its scope; the selector under which dynamic registration stores a known reference.')
 TECHNIQUE = 'runtime metamorphic monitor (text vs reduced text, first use vs repeat parse) over skip_unknown settings'
 DESIGN_REF = 'DESIGN.md section 4, C15'
